@@ -1,6 +1,7 @@
 import OmplModel.Proofs.PdfSample
 import OmplModel.Proofs.ESTPdf
 import OmplModel.Proofs.ProjEST
+import OmplModel.Proofs.AtlasPdf
 import Mathlib.Tactic.FieldSimp
 import Mathlib.Tactic.Ring
 import Mathlib.Algebra.Order.Field.Basic
@@ -764,5 +765,60 @@ example : (projRun 0).status = .timeout ∧ (projRun 0).added = none := by decid
 example : (@ProjEST.solve Nat Int intScale projToy #[30] projScript 6).status = .invalidStart := by decide
 
 end ProjEST
+
+/-! ## the chart PDF of `AtlasStateSpace` (position-addressed weight refresh) -/
+
+section Atlas
+open OmplModel.AtlasPdf
+
+/-- **Element `i` of `chartPDF_` is chart `i`** [AF]: for every history of `newChart` calls (any neighbour lists, any bias
+values the bias function returned — `add` must not reject them, i.e. no negative bias), after the history the PDF has one
+element per chart, the element at position `i` is the one created for chart `i` (so the position-addressed refresh
+`update(getElements()[near.second], …)` hits the right element), `index_` fields and tree shape are intact, and element
+`i` carries the bias most recently computed for chart `i` (`specRun`: the new chart's bias at creation, overwritten by every
+later refresh of that chart). -/
+theorem atlas_pdf_index_is_chart_index {α : Type} [WOps α] (cs : List (NewChart α))
+    (hb : ∀ c ∈ cs, WOps.lt c.bias (WOps.zero : α) = false) :
+    (run (Pdf.empty : Pdf α) cs).data.size = cs.length ∧
+      (∀ i, i < cs.length → (run (Pdf.empty : Pdf α) cs).data[i]? = some i) ∧
+      ShapeInv (run (Pdf.empty : Pdf α) cs) ∧ IdxSync (run (Pdf.empty : Pdf α) cs) ∧
+      (specRun ([] : List α) cs).length = cs.length ∧
+      ∀ i, (run (Pdf.empty : Pdf α) cs).getWeight i = (specRun ([] : List α) cs)[i]? := by
+  have h := aligned_run cs (Pdf.empty : Pdf α) [] hb aligned_empty
+  have hlen : ∀ (cs : List (NewChart α)) (ws : List α), (specRun ws cs).length = ws.length + cs.length := by
+    intro cs
+    induction cs with
+    | nil => intro ws; simp [specRun]
+    | cons c rest ih =>
+      intro ws
+      simp only [specRun, List.foldl_cons] at ih ⊢
+      rw [ih]
+      have : ∀ (l : List (Nat × α)) (w : List α), (l.foldl (fun w ib => w.set ib.1 ib.2) w).length = w.length := by
+        intro l
+        induction l with
+        | nil => intro w; rfl
+        | cons a r ih2 => intro w; simp only [List.foldl_cons]; rw [ih2]; simp
+      simp [specStep, this]; omega
+  have hl := hlen cs []
+  simp only [List.length_nil, Nat.zero_add] at hl
+  refine ⟨by rw [h.inv.size, hl], fun i hi => h.pos i (by rw [hl]; exact hi), h.inv.shape, h.inv.idx, hl, h.weight⟩
+
+/-- the history of the seeded change C12-s5 in miniature: chart 0 has bias 0, chart 1 bias 2, chart 2 (bias 1) is created
+next to chart 0 whose bias is recomputed (still 0) -/
+def atlasHistory : List (NewChart Int) := [⟨[], 0⟩, ⟨[], 2⟩, ⟨[(0, 0)], 1⟩]
+
+example : (@run Int intScale.toWOps Pdf.empty atlasHistory).tree = [#[0, 2, 1], #[2, 1], #[3]] ∧
+    (@run Int intScale.toWOps Pdf.empty atlasHistory).data = #[0, 1, 2] := by decide
+example := @atlas_pdf_index_is_chart_index Int intScale.toWOps atlasHistory (by decide)
+
+/-- **Skipping an `add` breaks the position addressing** (witness, kernel-evaluated): with "a chart whose bias is not
+positive is not added", the same history leaves 2 elements for 3 charts, and the refresh of chart 0 has overwritten the
+weight of chart 1's element (2, its bias) with 0 — chart 1 can never be drawn again. -/
+theorem atlas_skip_add_breaks :
+    (@runSkip Int intScale.toWOps Pdf.empty atlasHistory).data.size = 2 ∧
+      (@runSkip Int intScale.toWOps Pdf.empty atlasHistory).tree = [#[0, 1], #[1]] ∧
+      (specRun ([] : List Int) atlasHistory) = [0, 2, 1] := by decide
+
+end Atlas
 
 end OmplModel.Props.C12
